@@ -192,6 +192,8 @@ func (E *Engine) encodeOnce(key string, preset map[string]string, presetTypes []
 				f.ghostRetTypes[k] = cf.Signature.Results()
 			} else if rt := E.libResultType(cs.Callee); rt != nil {
 				f.ghostRetTypes[k] = rt
+			} else if cf != nil && cf.Signature.Results().Len() == 0 {
+				// no result: the name serves called(name) and ncalls(name) only
 			} else {
 				cfail("calls ... as %s: callee %s not found or not single-valued", cs.As, cs.Callee)
 			}
@@ -281,6 +283,10 @@ func (f *frame) evalContractBool(cl *Clause, heap Heap, extra map[string]SV, old
 // (and definitions formula), "global" asserts definitions once for the whole query.
 func (f *frame) evalContractMode(cl *Clause, heap Heap, extra map[string]SV, oldHeap Heap, mode string) string {
 	bind := f.selfBind()
+	if f.contract != nil && len(f.contract.Calls) > 0 && f == f.enc.top && (cl.Kind == "invariant" || cl.Kind == "ensures" || cl.Kind == "throws" || cl.Kind == "unwind_ensures") {
+		// ghost results of "calls ... as name" clauses, as recorded in the heap the clause is read in
+		f.ghostBind(bind, heap)
+	}
 	for k, v := range extra {
 		bind[k] = v
 	}
@@ -318,6 +324,19 @@ func (f *frame) resolveName(name string) (SV, bool) {
 	// in an at_call clause a local variable denotes its value at the call: the value of the
 	// nearest debug reference before the call in the same block
 	if f.atCallCtx && f.curInstr != nil {
+		// a variable that lives in memory denotes its contents at the call, not an earlier load
+		for _, b := range f.fn.Blocks {
+			for _, in := range b.Instrs {
+				if a, ok := in.(*ssa.Alloc); ok && a.Comment == name {
+					if sv, ok := f.vals[a]; ok {
+						if sv.loc != nil {
+							return sv, true
+						}
+						return SV{t: a.Type(), loc: &Loc{kind: locCell, base: sv.term, elemT: a.Type().(*types.Pointer).Elem()}}, true
+					}
+				}
+			}
+		}
 		if blk := f.curInstr.Block(); blk != nil {
 			pos := -1
 			for i, in := range blk.Instrs {
@@ -451,6 +470,10 @@ func (f *frame) resolveName(name string) (SV, bool) {
 				return sv, true
 			}
 		}
+	}
+	if len(vals) > 1 && f.atCallCtx {
+		// at this call site no definition of the name reaches the call: not computed yet
+		return SV{}, false
 	}
 	if len(vals) > 1 {
 		// several definitions: if exactly one is a phi that has been encoded and dominates, ambiguous
@@ -614,6 +637,7 @@ func (f *frame) postconditions() {
 					res = SV{tuple: r.vals}
 				}
 				bindResults(extra, f.fn, res)
+				f.ghostBind(extra, r.heap)
 				save := f.curPC
 				f.curPC = r.pc
 				wr := f.evalContractMode(&Clause{Kind: "calls", Text: cs.WhenRet, Func: fc.Key, File: cs.Clause.File, Line: cs.Clause.Line}, r.heap, extra, nil, "assume")
@@ -957,6 +981,20 @@ func (f *frame) resolveNth(name string, k int) (SV, bool) {
 		cfail("%s#%d: only %d variables of that name in %s", name, k, len(objs), f.fn.Name())
 	}
 	oi := objs[k-1]
+	if len(oi.vals) > 1 {
+		// a loop variable: its initial value, the phi at the loop head and the updated value;
+		// the variable as the loop sees it is the phi
+		var phis []ssa.Value
+		for _, v := range oi.vals {
+			if _, ok := v.(*ssa.Phi); ok {
+				phis = append(phis, v)
+			}
+		}
+		if len(phis) == 1 {
+			sv, ok := f.vals[phis[0]]
+			return sv, ok
+		}
+	}
 	if len(oi.vals) != 1 {
 		cfail("%s#%d has %d definitions in %s", name, k, len(oi.vals), f.fn.Name())
 	}
